@@ -334,8 +334,9 @@ class FileResponse(Response, FileResponseMixin):
             return
 
         with open(self.filepath, "rb") as file:
-            for _ in range(0, file_size, self.chunk_size):
-                yield file.read(self.chunk_size)
+            # no more than the announced length, also if the file has grown since
+            for here in range(0, file_size, self.chunk_size):
+                yield file.read(min(self.chunk_size, file_size - here))
 
     def handle_single_range(
         self,
